@@ -6,6 +6,12 @@ func init() {
 		add := func(p c16Params, pb, shards, budget int) {
 			jobs = append(jobs, &Job{Scenario: "c16.mpsc", Params: js(p), PB: pb, Shards: shards, BudgetS: budget, Terminat: true})
 		}
+		// starvation deviation: a producer that waits for the producer linking the next chunk keeps being scheduled
+		// (up to 2600 yields, i.e. about 1300 re-reads of two words) while that producer is not: waits that give up after a bounded number of re-reads
+		// then refuse an offer although the queue is far from full
+		for _, pre := range []int{1, 2} {
+			jobs = append(jobs, &Job{Scenario: "c16.mpsc", Params: js(c16Params{Init: 2, Max: 8, Producers: []int{1, 1}, Preload: pre}), PB: 2, Shards: 8, BudgetS: 120, Terminat: true, Starve: 2600})
+		}
 		if !thorough {
 			// growth 2 -> 4 with one chunk switch, 2 producers
 			add(c16Params{Init: 2, Max: 4, Producers: []int{2, 2}}, 2, 4, 60)
